@@ -49,9 +49,10 @@ class Counter:
     """deterministic budgets: states admitted to columns (Column.add) and parse states constructed at all
     (a loop that keeps building states without admitting any is caught by the second one)"""
 
-    def __init__(self, budget, budget_created=60000):
+    def __init__(self, budget, budget_created=60000, budget_nodes=400000):
         self.n, self.budget = 0, budget
         self.created, self.budget_created = 0, budget_created
+        self.nodes, self.budget_nodes = 0, budget_nodes       # tree nodes built by the parser (a loop that only wraps trees is caught by this one)
 
     def install(self):
         import fandango.language.grammar.parser.column as col
@@ -68,6 +69,16 @@ class Counter:
                 raise BudgetExceeded()
             return me.orig_init(self_, *a, **k)
         ps.ParseState.__init__ = init
+        import fandango.language.grammar.parser.parser_tree as ptm
+        self.ptm = ptm
+        self.orig_node_init = ptm.ParserDerivationTree.__init__
+
+        def node_init(self_, *a, **k):
+            me.nodes += 1
+            if me.nodes > me.budget_nodes:
+                raise BudgetExceeded()
+            return me.orig_node_init(self_, *a, **k)
+        ptm.ParserDerivationTree.__init__ = node_init
 
         def add(self_, state):
             r = me.orig(self_, state)
@@ -81,9 +92,28 @@ class Counter:
     def uninstall(self):
         self.col.Column.add = self.orig
         self.ps.ParseState.__init__ = self.orig_init
+        self.ptm.ParserDerivationTree.__init__ = self.orig_node_init
 
 
 NULLABLE_BITS = ['""', '"a"?', '"b"*', '("a" | "")', '<e>', '<e>?', '("a"?)*', '(<e> "b"?)+', '<start>?', '"a"{0,2}']
+
+
+# repetitions with computed bounds under left / right / nested recursion.  The chart model has no computed bounds: it is consulted on the variant in
+# which the computed bound is replaced by the constant range of the length field (a superset grammar with the same shape)
+COMPUTED = [
+    ('<start> ::= <list>\n<list> ::= <list> <item> | <item>\n<item> ::= <len> <letter>{int(<len>)}\n<len> ::= "1" | "2" | "3"\n<letter> ::= "a" | "b"\n',
+     ["2ab", "1a2ba", "3aab1b", "2a", "1a1b1a", ""]),
+    ('<start> ::= <item> <start> | <item>\n<item> ::= <len> <letter>{int(<len>)}\n<len> ::= "1" | "2" | "3"\n<letter> ::= "a" | "b"\n',
+     ["2ab", "1a2ba", "3aab1b", "2a", "1a1b1a"]),
+    ('<start> ::= <e>\n<e> ::= <e> "+" <t> | <t>\n<t> ::= "(" <e> ")" | <len> <letter>{int(<len>)}\n<len> ::= "1" | "2" | "3"\n<letter> ::= "a" | "b"\n',
+     ["2ab+1a", "(1a+2bb)", "(2ab)+(1a)+3aaa", "1a+", "((1b))"]),
+    ('<start> ::= <len> <blk>{int(<len>)}\n<blk> ::= <blk> "x" | <len> <letter>{int(<len>)}\n<len> ::= "1" | "2" | "3"\n<letter> ::= "a" | "b"\n',
+     ["21a2ab", "11ax", "22abxx1b", "31a1a1a", "21a"]),
+]
+
+
+def constant_variant(spec):
+    return spec.replace("{int(<len>)}", "{1,3}")
 
 
 def gen_spec(rng):
@@ -124,25 +154,33 @@ def gen_worker(args):
     rng = random.Random(seed * 977 + 5)
     terms, infos = [], []
     tries = 0
-    while len(infos) < n and tries < n * 4:
+    computed = list(COMPUTED) if seed % 1000 in (0, 1) else []
+    if seed % 1000 == 1:
+        computed.reverse()
+    while computed or (len(infos) < n and tries < n * 4):
         tries += 1
-        spec = gen_spec(rng)
+        comp = computed.pop(0) if computed else None
+        spec = comp[0] if comp else gen_spec(rng)
         try:
             fan = Fandango(spec)
             g = fan.grammar
-            rx = earley.RulesExport(g)
+            rx = earley.RulesExport(Fandango(constant_variant(spec)).grammar if comp else g)
             sig = earley.nonterminating_signature(g)
             lrec = earley.left_recursive(g)
         except Exception as e:
             res.bump("spec_skipped_" + type(e).__name__)
             continue
-        for _ in range(2):
-            w = "".join(rng.choice("abab c") for _ in range(rng.randint(0, 5))).replace(" ", "")
+        if comp:
+            res.bump("computed_repetition_specs")
+        for w_fixed in (comp[1] if comp else [None, None]):
+            w = w_fixed if comp else "".join(rng.choice("abab c") for _ in range(rng.randint(0, 5))).replace(" ", "")
             if "cut into elements in several ways" in spec or spec.startswith("<start> ::= <x>+\n<x> ::= \"a\" | \"aa\"") or '"ab" | "b" | "ba"' in spec \
                     or '<op> ::= "a" | "aa"' in spec or "(<x> | <x> <x>)+" in spec:
                 # longer words: several ways of cutting, followed by further elements
                 w = "".join(rng.choice("aab") for _ in range(rng.randint(3, 7))) + rng.choice(["", "b", "bb", "c", "ab"])
             mode = rng.choice(["forest", "forest", "first", "prefix"])
+            if comp:
+                mode = rng.choice(["forest", "first"])
             c = Counter(BUDGET)
             c.install()
             done = True
@@ -172,7 +210,8 @@ def gen_worker(args):
                 fan = Fandango(spec)        # do not reuse an interrupted parser
                 g = fan.grammar
             terms.append(f"({rx.term}, {coq_string('<start>')}, {rx.input_term(w)}, {coq_nat(FUEL)}, {coq_N(c.n)}, {coq_bool(done)})")
-            infos.append({"spec": spec, "word": w, "request": mode, "impl_states": c.n, "impl_finished_within_budget": done,
+            infos.append({"spec": spec, "word": w, "request": mode, "impl_states": c.n, "impl_states_created": c.created, "impl_tree_nodes": c.nodes,
+                          "model_consulted_on": constant_variant(spec) if comp else "the same grammar", "impl_finished_within_budget": done,
                           "budget": BUDGET, "signature": sig or ("prefix-mode-left-recursion" if (mode == "prefix" and lrec) else None)})
             res.count(("terminates", spec, w, mode), nontrivial=len(w) >= 1)
             res.bump("signature_" + str(sig))
@@ -196,7 +235,9 @@ def correspondence(res):
         codes[i] = v
     res.bump("model_consulted", len(hard))
     res.coverage["rule"] = ("grammars biased towards empty-deriving symbols, nested repetitions, left/right/mutual recursion x words of 0-5 units x request kind "
-                            "(whole forest, first tree, prefix mode); the implementation runs under a budget of 12000 admitted states (counting wrapper around "
+                            "(whole forest, first tree, prefix mode), plus 4 fixed grammars with computed repetition bounds under left / right / nested recursion (model consulted "
+                            "on the constant-bound variant); the implementation runs under budgets of 12000 admitted states, 60000 constructed states and "
+                            "400000 parser tree nodes (counting wrapper around "
                             "Column.add), the chart model under fuel 150 per work list; a case where the model run terminates and the implementation exceeds "
                             "50 x model work + 10000 states is a violation. non-trivial = non-empty word; distinct by (spec, word, request)")
     known, _ = common.load_known("C06")
